@@ -205,6 +205,17 @@ func checkTiling(src string, withCursors bool) *tilingResult {
 
 		if tok.Type == token.ILLEGAL {
 			res.Illegal = true
+			// an unterminated comment or string runs to the end of the input: the lexer has consumed everything
+			// and the end-of-input token follows, just past the last byte
+			if after.Pos >= len(src) {
+				if eof := lx.NextToken(); eof.Type == token.EOF {
+					el, ec := tab.pos(len(src))
+					if eof.Pos.StartLine != el || eof.Pos.StartCol != ec || eof.Pos.EndLine != el || eof.Pos.EndCol != ec {
+						res.addf("eof-position", "EOF (after the unterminated %q) at %d:%d-%d:%d, want %d:%d (just past the last byte)", tok.Literal,
+							eof.Pos.StartLine, eof.Pos.StartCol, eof.Pos.EndLine, eof.Pos.EndCol, el, ec)
+					}
+				}
+			}
 			break
 		}
 		// logical progress: the lexer must have consumed input
